@@ -127,14 +127,34 @@ class Decl:
         self.collisions = {pn for pn, c in counts.items() if c > 1}
         self.attr = {}             # (iface, pname) -> attribute name
         self.mixins = 0
+        self.store_members = 0
         self.alias = {}            # (iface, pname) -> second attribute name bound to the same property (derived class)
 
         def build(cname, base, ifs, hosted):
+            # a user interface with members called like those of org.freedesktop.DBus.Properties (a keyed store), bound
+            # under the conventional dbus_<member> names: calls naming the Properties interface are not theirs to answer
+            store_iface = ifs[0][0] if (ifs and base is O.DBusObject and cid % 7 in (2, 5)) else None
             attrs = {'dbusInterfaces': [
                 I.DBusInterface(n, *([I.Property(pn, sig, readable=acc not in ('write', 'none'), writeable=acc not in ('read', 'none'),
                                                  emitsOnChange=em) for pn, (sig, acc, em) in props.items()] +
-                                     ([I.Method('Touch')] if n == touch_iface else [])),
+                                     ([I.Method('Touch')] if n == touch_iface else []) +
+                                     ([I.Method('Get', 'ss', 'v'), I.Method('Set', 'ssv', ''), I.Method('GetAll', 's', 'a{sv}')]
+                                      if n == store_iface else [])),
                                 noRegister=True) for n, props in ifs]}
+            if store_iface:
+                self.store_members += 1
+
+                def dbus_Get(self_, a, b):
+                    return 'from-the-store'
+
+                def dbus_Set(self_, a, b, c):
+                    return None
+
+                def dbus_GetAll(self_, a):
+                    return {'from-the-store': 1}
+                attrs['dbus_Get'] = O.dbusMethod(store_iface, 'Get')(dbus_Get)
+                attrs['dbus_Set'] = O.dbusMethod(store_iface, 'Set')(dbus_Set)
+                attrs['dbus_GetAll'] = O.dbusMethod(store_iface, 'GetAll')(dbus_GetAll)
             for n, pn in hosted:
                 an = 'p_%s_%s' % (n.rsplit('.', 1)[1], pn)
                 explicit = pn in self.collisions or r.random() < 0.3
@@ -184,6 +204,8 @@ def run_case(ctx, seed, idx):
         d = Decl(r, idx)
         if d.mixins:
             ctx.count('classes_with_descriptors_in_a_plain_mixin', d.mixins)
+        if d.store_members:
+            ctx.count('classes_with_user_members_called_get_set_getall')
         model = {}          # (iface, pname) -> value
         keys = sorted(d.props)
         first_touch = list(keys)
